@@ -29,3 +29,200 @@ Theorem C19_range_rewrite_repaired :
              well_formed (s_loc s) = true /\ contains (s_loc s) (s_decl s) = true).
 Proof. exact rewrite_witnesses_fixed. Qed.
 Print Assumptions C19_range_rewrite_repaired.
+
+(* ====================================================================== round 2: theorems for ALL files
+   (proofs: Proofs/SymbolsRange.v, SymbolsLocs.v, SymbolsMerge.v, SymbolsOutline.v; examples: SymbolsExamples.v).
+   `outline_of_bytes fx bs` = parse the bytes, run the first-pass analysis model, merge (one-file workspace),
+   FindAllSymbol with range rule fx; deployed_fixed = true (the repaired rule). *)
+From LH Require Import Model.Parser Model.LuaFront Proofs.SymbolsLocs Proofs.SymbolsOutline Proofs.SymbolsExamples.
+
+(* Layout hypothesis (boolean, on the AST): every Loc of an expression / declared name of the tree is a token span with
+   start <= end.  Parser output satisfies it on the witness files and on a file using every declaration form. *)
+Example C19_layout_wf_examples :
+  map (parsed_ok layout_wf) [w_local; w_global; w_assigned; w_shadow; w_rich; w_before] = [true; true; true; true; true; true].
+Proof. exact layout_wf_examples. Qed.
+
+(* every entry (and every child entry) of the outline has start <= end - now also entries WITH children *)
+Theorem C19_range_well_formed :
+  forall bs b ss s,
+    parse_bytes no_gbk classify_tok bs = Ok (PR b [] []) -> layout_wf b = true ->
+    outline_of_bytes deployed_fixed bs = Some ss -> In s ss ->
+    well_formed (s_loc s) = true /\ forall c, In c (s_children s) -> well_formed (c_loc c) = true.
+Proof. exact outline_of_bytes_wf. Qed.
+Print Assumptions C19_range_well_formed.
+
+(* the range contains the declaring identifier: full statement (refuted by function-valued assignments, class
+   assigned_function_range) and the proved part: every entry / child entry that is not function-valued, for EVERY
+   file, no layout hypothesis, with or without children.  What is missing: function-valued entries (for top-level
+   `local function` / `function f()` statements see C19_outline_complete_partial below). *)
+Definition C19_range_contains_decl_full : Prop :=
+  forall bs ss s, outline_of_bytes deployed_fixed bs = Some ss -> In s ss ->
+                  contains (s_loc s) (s_decl s) = true /\
+                  forall c, In c (s_children s) -> contains (c_loc c) (c_decl c) = true.
+
+Theorem C19_range_contains_decl_partial :
+  forall bs ss s,
+    outline_of_bytes deployed_fixed bs = Some ss -> In s ss ->
+    (s_fn s = false ->
+     contains (s_loc s) (s_decl s) = true /\ sl (s_loc s) = sl (s_decl s) /\ sc (s_loc s) = sc (s_decl s)) /\
+    (forall c, In c (s_children s) -> c_fn c = false -> contains (c_loc c) (c_decl c) = true).
+Proof. exact outline_contains_decl_partial. Qed.
+Print Assumptions C19_range_contains_decl_partial.
+
+Theorem C19_range_contains_decl_full_refuted : ~ C19_range_contains_decl_full.
+Proof. exact contains_decl_full_refuted. Qed.
+Print Assumptions C19_range_contains_decl_full_refuted.
+
+(* children inside the parent's range: full statement, refuted on the model AND on the real server by a member that
+   is assigned textually BEFORE the global is defined (`function foo() t.x = 1 end  t = {}`: entry t = 3:0-3:1, child
+   t.x = 1:4-1:5); proved part, for EVERY file: only non-function entries have children, the parent starts at its
+   declaring identifier, every child ENDS inside the parent, and the parent's end is its own identifier's end or the
+   end of one of its children (the range is the smallest one with these properties). Missing: child start >= parent
+   start (false in general, see the witness). *)
+Definition C19_children_inside_full : Prop :=
+  forall bs ss s c, outline_of_bytes deployed_fixed bs = Some ss -> In s ss -> In c (s_children s) ->
+                    contains (s_loc s) (c_loc c) = true.
+
+Theorem C19_children_inside_partial :
+  forall bs ss s c,
+    outline_of_bytes deployed_fixed bs = Some ss -> In s ss -> In c (s_children s) ->
+    s_fn s = false /\
+    sl (s_loc s) = sl (s_decl s) /\ sc (s_loc s) = sc (s_decl s) /\
+    pos_le (el (c_loc c)) (ec (c_loc c)) (el (s_loc s)) (ec (s_loc s)) = true /\
+    ((el (s_loc s), ec (s_loc s)) = (el (s_decl s), ec (s_decl s)) \/
+     exists c', In c' (s_children s) /\ (el (s_loc s), ec (s_loc s)) = (el (c_loc c'), ec (c_loc c'))).
+Proof. exact outline_children_inside_partial. Qed.
+Print Assumptions C19_children_inside_partial.
+
+Theorem C19_children_inside_full_refuted : ~ C19_children_inside_full.
+Proof. exact children_inside_full_refuted. Qed.
+Print Assumptions C19_children_inside_full_refuted.
+
+(* ---------------------------------------------------------------------- completeness of the outline
+   (proofs: Proofs/SymbolsSig.v, SymbolsGlobals.v, SymbolsComplete.v).
+   Full statement: every declaration of the reference list (Spec/SymbolSpec.v: top-level locals, globals, function
+   members) is covered by an entry of the right kind with a well-formed range inside the file that contains one of
+   its declaring identifiers.  It fails on the witness files of the open finding classes (assigned_function_range,
+   shadowed_top_local; member_* are function members). *)
+From LH Require Import Proofs.SymbolsJudge Proofs.SymbolsSig Proofs.SymbolsGlobals Proofs.SymbolsLexical Proofs.SymbolsComplete.
+
+Definition C19_outline_complete_full : Prop :=
+  forall bs b st,
+    parse_bytes no_gbk classify_tok bs = Ok (PR b [] []) -> analyse (fuel_of_bytes bs) b = Ok st ->
+    covers (line_lens bs) (entries_of (find_all_symbol deployed_fixed (finalize st))) (decls_spec (fuel_of_bytes bs) b) = true.
+
+Theorem C19_outline_complete_full_witnesses :
+  map full_cover [w_global; w_rich; w_local; w_assigned; w_shadow] = [Some true; Some false; Some false; Some false; Some false].
+Proof. exact full_cover_witnesses. Qed.
+Print Assumptions C19_outline_complete_full_witnesses.
+
+(* Proved part, for EVERY syntactically valid file (no layout hypothesis).
+   * `top_local_last b nm = Some (l, false, ofl)`: the LAST top-level `local` / `local function` declaration of nm in
+     the main block declares it at identifier Loc l; ofl = the Loc of the function literal if its value is one
+     (`local function f` or `local f = function`).  The outline has a "local" entry nm whose s_decl is l, which is
+     function-valued iff the declaration is, and then its range is the function literal's Loc (for a `local function`
+     statement that Loc starts at `local`, so it contains the identifier).
+   * `asg_block nm b = true`: nm occurs as an assignment target `nm = ...` / `function nm() end` at a place the
+     analysis visits (anywhere, any depth; not inside the surplus values of `local a = v1, v2, v3`, which LuaHelper
+     never analyses); `chk_block (not_named nm) any_target b = true`: no local, parameter or loop variable of the file
+     is named nm, table constructors / if statements have as many values as keys / blocks as conditions (parser
+     invariant).  Then the outline has a non-local entry nm.
+   * For any boolean predicate pt that holds of (name, identifier Loc, Loc of the function literal if the value at the
+     same index is one) for EVERY assignment target `name = value` of the file, pt holds of (s_key, s_decl, range if
+     function-valued) of every non-local entry: the entry is located at one of the file's assignment targets of that
+     name (for a `function f() end` statement the range is the statement's function Loc, which contains f).
+   Missing w.r.t. the full statement: earlier declarations of a re-declared top-level local (class shadowed_top_local),
+   globals whose name is also bound as a local / parameter somewhere in the file, function members t.f / t:m (classes
+   member_lost, member_of_undeclared, foreign_member), and "inside the file" of the ranges. *)
+Theorem C19_outline_complete_partial :
+  forall bs b ss,
+    parse_bytes no_gbk classify_tok bs = Ok (PR b [] []) -> outline_of_bytes deployed_fixed bs = Some ss ->
+    (forall nm l ofl, top_local_last b nm = Some (l, false, ofl) ->
+       exists s, In s ss /\ s_local s = true /\ s_key s = nm /\ s_decl s = l /\ s_fn s = is_some ofl /\
+                 (forall fl, ofl = Some fl -> s_loc s = fl)) /\
+    (forall nm, chk_block (not_named nm) any_target b = true -> asg_block nm b = true ->
+       exists s, In s ss /\ s_local s = false /\ s_key s = nm) /\
+    (forall pt s, chk_block any_name pt b = true -> In s ss -> s_local s = false -> pt (entry_triple s) = true).
+Proof. exact outline_complete_bytes. Qed.
+Print Assumptions C19_outline_complete_partial.
+
+(* the guards are satisfiable: w_rich (locals, globals assigned at depth, function statements, methods); p is a
+   parameter that is also assigned - the guard excludes it *)
+Example C19_outline_complete_guards :
+  map (fun nm => parsed_ok (chk_block (not_named nm) any_target) w_rich && parsed_ok (asg_block nm) w_rich)
+      [n_q; n_cfg; n_h; n_t; n_p] = [true; true; true; true; false] /\
+  parsed_ok (chk_block any_name rich_targets) w_rich = true /\
+  top_local_last_of w_rich n_helper = Some (mkLoc 5 15 5 21, false, Some (mkLoc 5 0 11 3)) /\
+  top_local_last_of w_rich n_M = Some (mkLoc 1 6 1 7, false, None) /\
+  top_local_last_of w_shadow [120%N] = Some (mkLoc 2 6 2 7, false, None).
+Proof. exact complete_guard_examples. Qed.
+
+(* ---------------------------------------------------------------------- globals, lexical version
+   (proof: Proofs/SymbolsLexical.v, one more induction over the analysis; it uses that nested constructs restore the
+   scope frames - SymbolsSig - and that the global table only grows - SymbolsGlobals).
+   `asgU_block nm b = true`: nm occurs as an assignment target at a visited place where NO enclosing `local`,
+   `local function`, parameter or loop variable named nm is in scope (Lua scoping: a `local` is in scope in the
+   statements after it, `local function` also in its own body, `repeat` conditions see the body's locals; one
+   pessimistic corner: in `local a, b = e0, e1, ..` the values after the first count as inside the scope of a and b).
+   `shp_block b = true`: parser shape (as many table values as keys, as many `if` blocks as conditions).
+   This strengthens the second clause of C19_outline_complete_partial from "bound nowhere in the file" to
+   "not bound at the place of the assignment" - the reference binder's notion of a global variable. *)
+From LH Require Import Proofs.SymbolsLexical.
+
+Theorem C19_outline_globals_lexical :
+  forall bs b ss nm,
+    parse_bytes no_gbk classify_tok bs = Ok (PR b [] []) -> outline_of_bytes deployed_fixed bs = Some ss ->
+    shp_block b = true -> asgU_block nm b = true ->
+    exists s, In s ss /\ s_local s = false /\ s_key s = nm.
+Proof. exact outline_globals_lexical_bytes. Qed.
+Print Assumptions C19_outline_globals_lexical.
+
+(* w_lex: x is a local of f and a global assigned in g - outside the "bound nowhere" guard, inside the lexical one;
+   w_rich: p (a parameter that is assigned) and M (a top-level local) are not counted *)
+Example C19_outline_globals_lexical_guards :
+  parsed_ok shp_block w_lex = true /\ parsed_ok (asgU_block n_x) w_lex = true /\
+  parsed_ok (chk_block (not_named n_x) any_target) w_lex = false /\
+  parsed_ok shp_block w_rich = true /\
+  map (fun nm => parsed_ok (asgU_block nm) w_rich) [n_q; n_cfg; n_h; n_t; n_p; n_M] = [true; true; true; true; false; false] /\
+  (exists ss, outline_of_bytes true w_lex = Some ss /\ map s_key ss = [[102%N]; n_x; [103%N]]).
+Proof. exact lexical_guard_examples. Qed.
+
+(* ---------------------------------------------------------------------- function statements contain their name
+   Complements C19_range_contains_decl_partial on function-valued entries: the entry of the last top-level
+   `local function g` (function Loc containing the identifier: a function STATEMENT, not `local g = function`) contains
+   its declaring identifier; and in a file whose function-valued `name = value` targets are all function statements
+   (boolean guard fn_target_contains: the function's Loc contains the identifier - false exactly for the class
+   assigned_function_range) EVERY non-local entry's range contains its declaring identifier. *)
+Theorem C19_range_contains_decl_function_statements :
+  forall bs b ss,
+    parse_bytes no_gbk classify_tok bs = Ok (PR b [] []) -> outline_of_bytes deployed_fixed bs = Some ss ->
+    (forall nm l fl, top_local_last b nm = Some (l, false, Some fl) -> contains fl l = true ->
+       exists s, In s ss /\ s_local s = true /\ s_key s = nm /\ s_decl s = l /\ s_fn s = true /\
+                 contains (s_loc s) (s_decl s) = true) /\
+    (forall s, chk_block any_name fn_target_contains b = true -> In s ss -> s_local s = false ->
+               contains (s_loc s) (s_decl s) = true).
+Proof. exact outline_function_statements. Qed.
+Print Assumptions C19_range_contains_decl_function_statements.
+
+Example C19_function_statement_guards :
+  parsed_ok (chk_block any_name fn_target_contains) w_fstat = true /\
+  parsed_ok (chk_block any_name fn_target_contains) w_assigned = false /\
+  top_local_last_of w_fstat [103%N] = Some (mkLoc 2 15 2 16, false, Some (mkLoc 2 0 2 22)).
+Proof. exact fn_statement_guard_examples. Qed.
+
+(* ---------------------------------------------------------------------- workspace/symbol, candidate list (partial)
+   DESIGN `C19_workspace_exact` (score-assumption -> #perfect <= maxSymbols -> the exact-name query returns an entry at
+   the declaration) needs a model of the matcher / sorter / truncation of check_lsp_symbol.go, which Model/Symbols.v
+   does not contain (only the per-file candidate collection `file_wsyms`; the answer is compared by correspondence in
+   legs c19.wssym / c19.wsbig / c19.score).  Proved part: every lexically global assigned name nm of a file is among the
+   candidates of that file, with the exact name nm, located at the identifier of an assignment target `nm = ...` of the
+   file (third component as in C19_outline_complete_partial: for any predicate true of all such targets).  Missing: the
+   selection step (score nm nm = 1 is maximal, at most maxSymbols perfect matches) and function members t.f / t:m. *)
+Theorem C19_workspace_candidate_partial :
+  forall bs b st nm,
+    parse_bytes no_gbk classify_tok bs = Ok (PR b [] []) -> analyse (fuel_of_bytes bs) b = Ok st ->
+    shp_block b = true -> asgU_block nm b = true ->
+    exists w, In w (file_wsyms (finalize st)) /\ w_name w = nm /\
+              forall pt, chk_block any_name pt b = true -> exists ofl, pt (nm, w_loc w, ofl) = true.
+Proof. exact ws_candidate_bytes. Qed.
+Print Assumptions C19_workspace_candidate_partial.
